@@ -1,3 +1,94 @@
-(* placeholder until the domain proofs are written *)
-From Coq Require Import ZArith.
-Theorem C07_placeholder : True. Proof. exact I. Qed.
+(* C07 - out-of-domain arguments are rejected before sending; nothing silently truncated.  Statements only.
+   `agrees st builder spec` (Proofs/C07_lemmas.v): spec = Some r  -> the builder succeeds and what reaches the wire
+   is exactly the ISO frame of r; spec = None (outside the documented domain) -> the builder fails. *)
+From Coq Require Import ZArith List Bool String.
+From UDS Require Import Lib.Bytes Lib.ErrM Spec.IsoRequests Model.Message Model.Client Model.Services Model.Helpers
+  Model.MemLoc Model.Svc_Simple Model.Svc_Memory Model.Svc_Did Model.History Proofs.Client_lemmas Proofs.C07_lemmas Proofs.C14_lemmas.
+Import ListNotations.
+Open Scope Z_scope.
+
+(* a failed builder means the call raises with the connection untouched: no flush, no send *)
+Theorem C07_reject_no_send : forall cfg st e interp post now s,
+  single_request cfg st (inl e) interp post now s = (CErr e None, st, now, s, []).
+Proof. exact rejected_sends_nothing. Qed.
+Print Assumptions C07_reject_no_send.
+
+(* an accepted call sends exactly the frame of its builder, once *)
+Theorem C07_accept_sends : forall cfg st mk interp post now s f,
+  frame_of st mk = inr f ->
+  let '(_, _, _, _, tr) := single_request cfg st mk interp post now s in sent tr = [f].
+Proof. exact accepted_sends_frame. Qed.
+Print Assumptions C07_accept_sends.
+
+(* the service identifiers and subfunction flags of the library are ISO's *)
+Theorem C07_service_ids : forallb svc_row_ok iso_services = true.
+Proof. exact iso_services_ok. Qed.
+
+(* accepted domain = documented domain, and inside it the exact ISO bytes, for every argument value *)
+Theorem C07_change_session : forall st session, agrees st (dsc_make session) (iso_change_session session).
+Proof. exact change_session_agrees. Qed.
+Theorem C07_ecu_reset : forall st t, agrees st (er_make t) (iso_ecu_reset t).
+Proof. exact ecu_reset_agrees. Qed.
+Theorem C07_tester_present : forall st, agrees st (mk_req "TesterPresent" (Some 0) None) iso_tester_present.
+Proof. exact tester_present_agrees. Qed.
+Theorem C07_security_access : forall st k level data, agrees st (sa_make k level data) (iso_security k level data).
+Proof. exact security_agrees. Qed.
+Theorem C07_clear_dtc : forall st cfg g m, agrees st (cdi_make cfg g m) (iso_clear_dtc (std cfg) g m).
+Proof. exact clear_dtc_agrees. Qed.
+Theorem C07_routine_control : forall st rid ct d, agrees st (rc_make rid ct d) (iso_routine rid ct d).
+Proof. exact routine_agrees. Qed.
+Theorem C07_access_timing : forall st a rec, agrees st (atp_make a rec) (iso_access_timing a rec).
+Proof. exact access_timing_agrees. Qed.
+Theorem C07_transfer_data : forall st seq d, agrees st (td_make seq d) (iso_transfer_data seq d).
+Proof. exact transfer_data_agrees. Qed.
+Theorem C07_transfer_exit : forall st d, agrees st (rte_make d) (iso_transfer_exit d).
+Proof. exact transfer_exit_agrees. Qed.
+Theorem C07_control_dtc_setting : forall st t d, agrees st (cds_make t d) (iso_control_dtc t d).
+Proof. exact control_dtc_agrees. Qed.
+Theorem C07_communication_control : forall st cfg ct subnet normal nm node cty,
+  mk_commtype subnet normal nm = inr cty ->
+  agrees st (cc_make cfg ct cty node) (iso_comm_control (std cfg) ct subnet normal nm node).
+Proof. exact comm_control_agrees. Qed.
+Theorem C07_clear_dynamic_did : forall st did, agrees st (dddi_clear_make did) (iso_clear_did did).
+Proof. exact clear_did_agrees. Qed.
+Theorem C07_test_data_identifier : forall st cfg l, agrees st (rdbi_make cfg false l) (iso_test_did l).
+Proof. exact test_did_agrees. Qed.
+Theorem C07_read_data_by_identifier : forall st cfg l,
+  agrees st (rdbi_make cfg true l) (if rdbi_domain cfg l then ireq "ReadDataByIdentifier" None (u16s l) else None).
+Proof. exact read_dids_agrees. Qed.
+Theorem C07_write_data_by_identifier : forall st cfg did v,
+  agrees st (wdbi_make cfg did v)
+            (iso_write_did did (match fetch_codec (pc_of cfg) did with inr n => Some n | inl _ => None end) v).
+Proof. exact write_did_agrees. Qed.
+Print Assumptions C07_security_access.
+Print Assumptions C07_communication_control.
+Print Assumptions C07_read_data_by_identifier.
+
+(* memory-addressed requests: the location either has no wire form (width invalid, value negative or too wide:
+   C14_wire / C14_formats) and the builder fails, or the frame is prefix ++ ALFID ++ address ++ size ++ suffix *)
+Theorem C07_memory_requests : forall st cfg name sid (pre post : bytes) a s af sf,
+  In (name, sid, false) iso_services ->
+  match client_memloc cfg a s af sf with
+  | inl e => frame_of st (m <- client_memloc cfg a s af sf ;; w <- memloc_wire m ;; mk_req_data name (pre ++ w ++ post)) = inl e
+  | inr m =>
+    match memloc_wire m with
+    | inl e => frame_of st (m <- client_memloc cfg a s af sf ;; w <- memloc_wire m ;; mk_req_data name (pre ++ w ++ post)) = inl e
+    | inr w => frame_of st (m <- client_memloc cfg a s af sf ;; w <- memloc_wire m ;; mk_req_data name (pre ++ w ++ post))
+               = inr (apply_override (ov st) (sid :: pre ++ w ++ post))
+    end
+  end.
+Proof. exact mem_request_frame. Qed.
+Print Assumptions C07_memory_requests.
+Theorem C07_memory_wire_is_iso : forall m na ns, 1 <= na <= 8 -> 1 <= ns <= 8 ->
+  al_addr (ml_alfid m) = 8 * na -> al_size (ml_alfid m) = 8 * ns ->
+  match iso_memloc na ns (ml_addr m) (ml_size m) with
+  | Some w => memloc_wire m = inr w
+  | None => memloc_wire m = inl EValue
+  end.
+Proof. exact memloc_wire_iso. Qed.
+Print Assumptions C07_memory_wire_is_iso.
+
+(* C07_partial: the builders of link_control, io_control, dynamically_define_did (define), request_file_transfer,
+   authentication and read_dtc_information are not yet characterised by a Coq theorem against Spec/IsoRequests.v; for
+   them the documented domain and the exact frame are checked by the boundary-complete correspondence against the
+   independent oracle tools/harness/isospec.py (same statement, evaluated on the implementation and on the model). *)
